@@ -3,7 +3,7 @@
    correspondence (the model computes the ledger sum of its element store after every block) and by
    the Go-side oracle over the exported diffs. *)
 From Coq Require Import ZArith List Bool.
-From Sia Require Import Prim.Result Prim.Tok Policy.Model Ledger.Types Ledger.Mid Ledger.Validate Ledger.Apply Ledger.Proofs Ledger.Flow.
+From Sia Require Import Prim.Result Prim.Tok Policy.Model Ledger.Types Ledger.Mid Ledger.Validate Ledger.Apply Ledger.Proofs Ledger.Flow Ledger.FlowSF.
 Import ListNotations.
 Open Scope Z_scope.
 
@@ -45,3 +45,21 @@ Theorem C01_v1_value_flow : forall s m t ts, validate_siacoins s m t ts = Ok tt 
   zsum (map (fun x => sco_value (snd x)) (t1_sco t)) + zsum (map (fun x => fc_payout (snd (fst x))) (t1_fc t)) + zsum (t1_fees t).
 Proof. exact v1_value_flow. Qed.
 Print Assumptions C01_v1_value_flow.
+
+(* an accepted transaction neither creates nor destroys siafunds: the values of the inputs spent and of the outputs created
+   have the same sum. The implementation adds them as uint64, so the equality is modulo 2^64; it is the plain equality when
+   neither sum reaches 2^64 (all siafund elements of a chain add up to the 10000 of the genesis allocation). No output
+   has value zero. *)
+Theorem C01_v2_siafunds_balance : forall H net vt pt se sd s m t, validate_v2_siafunds H net vt pt se sd s m t = Ok tt ->
+  sf_in2 t mod 2 ^ 64 = sf_out2 t mod 2 ^ 64 /\ Forall (fun x : id * (Z * bytes) => fst (snd x) <> 0) (t2_sfo t).
+Proof. exact v2_siafunds_balance. Qed.
+Print Assumptions C01_v2_siafunds_balance.
+Theorem C01_v2_siafunds_balance_exact : forall H net vt pt se sd s m t, validate_v2_siafunds H net vt pt se sd s m t = Ok tt ->
+  0 <= sf_in2 t < 2 ^ 64 -> 0 <= sf_out2 t < 2 ^ 64 -> sf_in2 t = sf_out2 t.
+Proof. exact v2_siafunds_balance_exact. Qed.
+Print Assumptions C01_v2_siafunds_balance_exact.
+(* v1: the inputs are valued as validation resolves their parents (supplement or an output created earlier in the block) *)
+Theorem C01_v1_siafunds_balance : forall net s m t ts, validate_siafunds net s m t ts = Ok tt ->
+  sf_in1 m ts t mod 2 ^ 64 = sf_out1 t mod 2 ^ 64.
+Proof. exact v1_siafunds_balance. Qed.
+Print Assumptions C01_v1_siafunds_balance.
